@@ -53,6 +53,7 @@ static std::vector<Op> buildAlphabet(const std::string& name, Limits& L, const s
         A.push_back(opRegSubmit(0, "0", L)); A.push_back(opRegSubmit(0, "n+1", L)); A.push_back(opRegMut(0, "ch")); A.push_back(opRegExt(0, L)); A.push_back(opRegCopy(1, 0));
         for (size_t f : {0, 1, 2}) { A.push_back(opEditStored(f, "px")); }
         A.push_back(opEditStored(1, "ch"));
+        for (auto t : {"app", "n", "n+2", "last"}) A.push_back(opSubmitStored(0, t, L));
     } else if (name == "c07") {     // C07: object states x deviations
         L.maxFrames = 2; L.maxPoints = 3; L.maxChans = 2;
         for (auto n : {"A", "B"}) A.push_back(opPoint(n, L));
@@ -77,8 +78,8 @@ static std::vector<Op> buildAlphabet(const std::string& name, Limits& L, const s
         A.push_back(opPoint("A", L)); A.push_back(opRate("POINT", 100.f)); A.push_back(opFrame("ok", "app", 0, L));
     } else if (name == "lookup") {  // C11: containers of every size 0..N
         L.maxFrames = thorough ? 3 : 2; L.maxPoints = thorough ? 3 : 2; L.maxChans = 2; L.maxGroups = 5; L.noColumnsOnGaps = true;
-        for (auto n : {"A", "B", "A ", "b"}) A.push_back(opPoint(n, L));
-        for (auto n : {"a", "a ", "B"}) A.push_back(opAnalog(n, L));
+        for (auto n : {"A", "B", "A ", "b", "  "}) A.push_back(opPoint(n, L));
+        for (auto n : {"a", "a ", "B", " "}) A.push_back(opAnalog(n, L));
         A.push_back(opRate("POINT", 100.f)); A.push_back(opRate("ANALOG", 200.f)); A.push_back(opRate("ANALOG", 100.f));
         A.push_back(opFrame("ok", "app", 0, L)); A.push_back(opFrame("ok", "n+1", 2, L));
         A.push_back(opParam("NEWG", "X", pv("i3"), "d0", false, L)); A.push_back(opParam("NEWG", "Y", pv("s2"), "d1", false, L)); A.push_back(opParam("G2", "x", pv("f1"), "d0", true, L));
